@@ -36,8 +36,24 @@ def restriction_rule(chk, repo, rid, fi, roles):
                 block = b
     after = block[block.index(c) + 1:]
     done = {}
+    # a tuple assignment `a, b = x, y` evaluates x and y first: it is judged as the simultaneous assignments a = x, b = y
+    flat = []
     for s in after:
+        if isinstance(s, ast.Assign) and len(s.targets) == 1 and isinstance(s.targets[0], ast.Tuple) and \
+                isinstance(s.value, ast.Tuple) and len(s.targets[0].elts) == len(s.value.elts):
+            group = []
+            for t_, v_ in zip(s.targets[0].elts, s.value.elts):
+                a_ = ast.Assign(targets=[t_], value=v_)
+                ast.copy_location(a_, s)
+                group.append(a_)
+            flat.append(group)
+        else:
+            flat.append([s])
+    for group in flat:
+      restricted_here = set()
+      for s in group:
         used = {x.id for x in ast.walk(s) if isinstance(x, ast.Name) and isinstance(x.ctx, ast.Load)}
+        used -= restricted_here if len(group) > 1 else set()
         if isinstance(s, ast.Assign) and len(s.targets) == 1 and isinstance(s.targets[0], ast.Name) and \
                 s.targets[0].id in roles and s.targets[0].id not in done:
             nm = s.targets[0].id
@@ -50,6 +66,10 @@ def restriction_rule(chk, repo, rid, fi, roles):
             n += 1
             done[nm] = True
             used -= {nm}
+            if len(group) > 1:
+                restricted_here |= {x for x in roles if any(isinstance(g.targets[0], ast.Name) and g.targets[0].id == x
+                                                            for g in group)}
+                used -= restricted_here
         early = [u for u in used if u in roles and u not in done]
         for u in early:
             chk.ob(rid, where(repo, fi, s), f'{fi.name}: `{u}` is not used before it has been restricted', False,
@@ -127,7 +147,9 @@ def from_vector_rules(chk, repo, rid):
         sv = [s for s in loop[0].body if isinstance(s, ast.Assign) and norm(s.targets[0]) == V]
     lab = [s for s in (loop[0].body if loop else []) if isinstance(s, ast.Assign) and norm(s.targets[0]).startswith(f'{M}.qD[')]
     ok = len(lab) == 1 and b is not None and norm(lab[0].targets[0]) == f'{M}.qD[{b["__i"]} + 1]' and \
-        f'len({S})' in norm(lab[0].value) and lab[0].lineno > (sv[0].lineno if sv else 0)
+        ((f'len({S})' in norm(lab[0].value) and lab[0].lineno > (sv[0].lineno if sv else 0)) or
+         any(f'len({norm(c_.targets[0])})' in norm(lab[0].value) for c_ in ast.walk(fi.node) if isinstance(c_, ast.Assign) and
+             isinstance(c_.value, ast.Call) and norm(c_.value.func) == 'retained_bond_indices' and c_.lineno < lab[0].lineno))
     chk.ob(rid, where(repo, fi, lab[0] if lab else fi.node), 'from_vector: the label of bond i+1 has the length of the '
            'retained singular values (taken after the truncation)', ok, norm(lab[0]) if lab else '', key=f'{rid}|from_vector|label')
     # trailing scalar absorbed
